@@ -301,8 +301,9 @@ func (s *Server) readMessage() (json.RawMessage, error) {
 		}
 	}
 
-	if contentLength == 0 {
-		return nil, fmt.Errorf("missing Content-Length header")
+	if contentLength <= 0 {
+		// zero, missing or negative: never allocate a buffer from it
+		return nil, fmt.Errorf("missing or invalid Content-Length header")
 	}
 
 	// Validate content length against maximum
